@@ -29,26 +29,32 @@ from harness import core
 MODULE = 'PyPhysim.Properties.C17'
 DRIVER = 'drv_c17'
 CLAIM = {
-    'technique': 'Lean 4 structural-induction proofs of dec(enc v) = norm v through value, class and file layers '
-                 '+ exact token-level correspondence of the model with the real to_json/from_json',
-    'text': 'For every supported value tree (Python scalars, numpy scalars of widths 8-64, strings, lists, sets, '
-            'real numeric arrays of any shape incl. zero-sized, dicts without the two hook-reserved keys) the model '
-            'decoder applied to the model encoder returns the value with numpy scalars replaced by the Python scalar '
-            'of the same value and nothing else changed; this is lifted by kernel-checked theorems to '
-            'SimulationParameters chains of any depth (unpacked marks, unpack index, original parameters), to every '
-            'state of SUM/RATIO/MISC results and every state the CHOICE update machine reaches from any update '
-            'history, to SimulationResults (repetition counts, current_rep, all results) and to the '
-            '.json/.pickle file dispatch; a second save/load is the identity and re-encoding gives the same JSON '
-            'tree; template file names with different renderings of one scalar field differ and integer/str/bool '
-            'renderings are injective. The model is tied to the code by exact comparison of the JSON tree and of '
-            'the loaded object state on seeded objects built through the real API.',
+    'technique': 'Lean 4 structural-induction proofs of dec(enc v) = norm v lifted through the class and file layers '
+                 '+ exact token-level correspondence of the model with the real to_json/from_json/save/load',
+    'text': 'Kernel-checked for all inputs: for every supported value tree (Python scalars, numpy scalars of widths '
+            '8-64, strings, lists, sets, real numeric arrays of any shape incl. zero-sized and 0-d, dicts without the '
+            'two hook-reserved keys) decoding the encoding returns the value with numpy scalars replaced by the Python '
+            'scalar of the same value and nothing else changed (same tree, values, dtype, shape); this is lifted to '
+            'SimulationParameters chains of any depth (unpacked marks, unpack index, original parameters of unpacked '
+            'children), to every field state of SUM/RATIO/MISC results and every state the CHOICE update machine '
+            'reaches from any update history (invariant total = num_updates = sum of counts proved by induction), to '
+            'SimulationResults (all results, runned_reps, current_rep, original_filename) and to the '
+            '.json/.pickle/no-extension file dispatch; a second save/load is the identity and re-encoding the loaded '
+            'object gives the same JSON tree; two parameter sets that differ in one template field with different '
+            'renderings get different file names for every template mentioning it, int/str/bool renderings are '
+            'injective, and the name does not change when numpy scalars are replaced by Python scalars. The model is '
+            'the repaired code, tied to it by exact comparison of the JSON tree and of the complete loaded state on '
+            'seeded objects built through the real constructors, update() histories and files; independent oracles '
+            '(the classes\' ==, a first-principles deep comparison, pickle, files, names) search for failing inputs.',
     'note': 'Trusted: Lean kernel; CPython json/pickle/repr(float)/str.format/os.path.splitext; numpy '
-            'array<->tolist and dtype names; the correspondence harness. Partial: binary64 arithmetic of '
-            'update() is not modelled (the round-trip theorems hold for every field state, so for every history); '
-            'float renderings in file names are a parameter of the model (injectivity proved for int/str/bool/None '
-            'fields, assumed for repr(float)); np.longdouble values that are not binary64 and NaN are outside the '
-            'supported set (known finding / excluded); container-valued template fields are not modelled '
-            '(set-valued fields are a known finding).',
+            'array<->tolist, dtype names and np.array(data, dtype).reshape; the correspondence harness. Partial: the '
+            'binary64 arithmetic of update() is not modelled (the round-trip theorems hold for every field state, hence '
+            'for every history; the CHOICE machine is modelled exactly); float renderings in file names are a '
+            'parameter of the model (injectivity proved for int/str/bool fields, conditional on injectivity of '
+            'repr(float) for float fields; numpy-float formatting = Python-float formatting is checked per generated '
+            'value); container/array-valued template fields, np.longdouble beyond binary64 (known finding), NaN '
+            '(== is not reflexive) and dict keys _is_set/_is_numpy_array (known finding with negative witness) are '
+            'outside the supported set; pickle is modelled as storing the object itself.',
 }
 
 RESERVED = ('_is_set', '_is_numpy_array')
@@ -124,12 +130,13 @@ def spec_features(spec, out=None):
             spec_features(s, out)
     elif t == 'array':
         shape = spec[2]
+        out.add('array:ndim=%d' % len(shape))
         if 0 in shape and len(shape) >= 2:
             out.add('array:zero-size-ndim>=2')
-        elif len(shape) != 1:
-            out.add('array:ndim=%d' % len(shape))
-        else:
-            out.add('array')
+        elif 0 in shape:
+            out.add('array:empty-1d')
+        if spec[1] in FLOAT_DTYPES and any(abs(float.fromhex(x)) == float('inf') for x in spec[3]):
+            out.add('array:nonfinite')
     return out
 
 
@@ -156,8 +163,11 @@ def tok_str(s):
     return 's' + '.'.join(str(ord(c)) for c in s)
 
 
-def tok(v, sort_sets=False):
-    """prefix tokens of a Python value, type-exact"""
+def tok(v, sort_sets=False, strict=False):
+    """prefix tokens of a Python value, type-exact (`strict`: for the model,
+    which has no np.longdouble)"""
+    if strict:
+        check_sendable(v)
     if v is None:
         return 'N'
     if isinstance(v, np.generic):
@@ -166,9 +176,9 @@ def tok(v, sort_sets=False):
         if isinstance(v, np.integer):
             return 'ni%d:%d:%d' % (1 if np.issubdtype(v.dtype, np.signedinteger) else 0, v.dtype.itemsize * 8, int(v))
         if isinstance(v, np.floating):
-            if v.dtype.itemsize > 8 and not (float(v) == v or v != v):
-                raise NotSendable('longdouble beyond binary64')
-            return 'nf%d:%s' % (v.dtype.itemsize * 8 if v.dtype.itemsize <= 8 else 128, tok_float(v))
+            if v.dtype.itemsize > 8:
+                return 'nf128:%s' % (tok_float(v) if float(v) == v else 'ld' + str(v))
+            return 'nf%d:%s' % (v.dtype.itemsize * 8, tok_float(v))
         raise NotSendable(type(v).__name__)
     if isinstance(v, bool):
         return 'T' if v else 'F'
@@ -188,14 +198,28 @@ def tok(v, sort_sets=False):
     if isinstance(v, np.ndarray):
         return 'A%s:%s %s' % (v.dtype, 'x'.join(str(n) for n in v.shape), tok(v.tolist(), sort_sets))
     if isinstance(v, dict):
-        parts = ['D%d' % len(v)]
+        items = []
         for k, x in v.items():
             if not isinstance(k, str):
                 raise NotSendable('non-str key')
-            parts.append(tok_str(k))
-            parts.append(tok(x, sort_sets))
-        return ' '.join(parts)
+            items.append(tok_str(k) + ' ' + tok(x, sort_sets))
+        if sort_sets:      # canonical form: the key order of a dict is not part of what is compared
+            items.sort()
+        return ' '.join(['D%d' % len(v)] + items)
     raise NotSendable(type(v).__name__)
+
+
+def check_sendable(v):
+    if isinstance(v, np.floating) and v.dtype.itemsize > 8:
+        raise NotSendable('longdouble is outside the model (its conversion to binary64 rounds)')
+    if isinstance(v, (list, set, frozenset)):
+        for x in v:
+            check_sendable(x)
+    elif isinstance(v, dict):
+        for x in v.values():
+            check_sendable(x)
+    elif isinstance(v, np.ndarray) and v.dtype.kind == 'f' and v.dtype.itemsize > 8:
+        raise NotSendable('longdouble array')
 
 
 def exc_name(e):
@@ -218,7 +242,7 @@ def params_in(p):
     parts = ['L%d' % len(chain)]
     for n in chain:
         names = list(n._unpacked_parameters_set)
-        parts.append('L3 %s %s %s' % (tok(dict(n.parameters)), tok(names), tok(int(n._unpack_index))))
+        parts.append('L3 %s %s %s' % (tok(dict(n.parameters), strict=True), tok(names), tok(int(n._unpack_index))))
     return ' '.join(parts)
 
 
@@ -228,10 +252,14 @@ def params_state(p):
         return 'N'
     if not isinstance(p._unpacked_parameters_set, set):
         raise NotSendable('unpacked set is a %s' % type(p._unpacked_parameters_set).__name__)
-    return ' '.join(['D4', tok_str('parameters'), tok(dict(p.parameters), True),
-                     tok_str('unpacked_parameters_set'), tok(p._unpacked_parameters_set, True),
-                     tok_str('unpack_index'), tok(p._unpack_index, True),
-                     tok_str('original_sim_params'), params_state(p._original_sim_params)])
+    return canon_dict([('parameters', tok(dict(p.parameters), True)),
+                       ('unpacked_parameters_set', tok(p._unpacked_parameters_set, True)),
+                       ('unpack_index', tok(p._unpack_index, True)),
+                       ('original_sim_params', params_state(p._original_sim_params))])
+
+
+def canon_dict(pairs):
+    return ' '.join(['D%d' % len(pairs)] + sorted(tok_str(k) + ' ' + t for k, t in pairs))
 
 
 RESULT_FIELDS = [('name', 'name'), ('update_type_code', '_update_type_code'), ('value', '_value'),
@@ -241,32 +269,26 @@ RESULT_FIELDS = [('name', 'name'), ('update_type_code', '_update_type_code'), ('
 
 
 def result_in(r):
-    return ' '.join(['L10'] + [tok(getattr(r, a)) for _, a in RESULT_FIELDS])
+    return ' '.join(['L10'] + [tok(getattr(r, a), strict=True) for _, a in RESULT_FIELDS])
 
 
 def result_state(r):
-    parts = ['D10']
-    for k, a in RESULT_FIELDS:
-        parts += [tok_str(k), tok(getattr(r, a), True)]
-    return ' '.join(parts)
+    return canon_dict([(k, tok(getattr(r, a), True)) for k, a in RESULT_FIELDS])
 
 
 def sim_in(s):
     parts = ['L5', 'D%d' % len(s._results)]
     for n, rs in s._results.items():
         parts += [tok_str(n), 'L%d' % len(rs)] + [result_in(r) for r in rs]
-    parts += [params_in(s._params), tok(s.runned_reps), tok(s.original_filename), tok(s.current_rep)]
+    parts += [params_in(s._params), tok(s.runned_reps, strict=True), tok(s.original_filename), tok(s.current_rep, strict=True)]
     return ' '.join(parts)
 
 
 def sim_state(s):
-    parts = ['D5', tok_str('params'), params_state(s._params), tok_str('runned_reps'), tok(s.runned_reps, True),
-             tok_str('original_filename'), tok(s.original_filename, True),
-             tok_str('current_rep'), tok(s.current_rep, True),
-             tok_str('results'), 'D%d' % len(s._results)]
-    for n, rs in s._results.items():
-        parts += [tok_str(n), 'L%d' % len(rs)] + [result_state(r) for r in rs]
-    return ' '.join(parts)
+    results = canon_dict([(n, ' '.join(['L%d' % len(rs)] + [result_state(r) for r in rs])) for n, rs in s._results.items()])
+    return canon_dict([('params', params_state(s._params)), ('runned_reps', tok(s.runned_reps, True)),
+                       ('original_filename', tok(s.original_filename, True)),
+                       ('current_rep', tok(s.current_rep, True)), ('results', results)])
 
 
 # ------------------------------------------------------- first-principles eq
@@ -299,7 +321,7 @@ def scalar_key(x):
     if k == 'int':
         return ('int', int(x))
     if k == 'float':
-        if isinstance(x, np.floating) and x.dtype.itemsize > 8:
+        if isinstance(x, np.floating) and x.dtype.itemsize > 8 and not (float(x) == x or x != x):
             return ('float', 'ld', str(x))
         return ('float', tok_float(x))
     return (k, x)
@@ -339,7 +361,7 @@ def deep_same(a, b, path='$'):
             return '%s: dtype %s became %s' % (path, a.dtype, b.dtype)
         return deep_same(a.tolist(), b.tolist(), path + '.tolist()')
     if ka == 'dict':
-        if list(a.keys()) != list(b.keys()):
+        if set(a.keys()) != set(b.keys()):
             return '%s: keys %r became %r' % (path, list(a), list(b))
         for k in a:
             d = deep_same(a[k], b[k], '%s[%r]' % (path, k))
@@ -376,7 +398,7 @@ def sim_same(s, q, ignore_filename=False):
         d = deep_same(getattr(s, a), getattr(q, a), 'sim.' + a)
         if d:
             return d
-    if list(s._results) != list(q._results):
+    if set(s._results) != set(q._results):
         return 'sim._results: names %r became %r' % (list(s._results), list(q._results))
     for n in s._results:
         if len(s._results[n]) != len(q._results[n]):
@@ -453,6 +475,21 @@ def result_features(rs):
 
 
 # ------------------------------------------------------------------ oracles
+def text_tree(text):
+    """canonical token form of a JSON text; the element order of an encoded
+    set (iteration order of a Python set) is not part of what is compared"""
+    def canon(t):
+        if isinstance(t, list):
+            return [canon(x) for x in t]
+        if isinstance(t, dict):
+            d = {k: canon(x) for k, x in t.items()}
+            if d.get('_is_set') is True and isinstance(d.get('data'), list):
+                d['data'] = sorted(d['data'], key=lambda x: tok(x))
+            return d
+        return t
+    return tok(canon(json.loads(text)), True)
+
+
 def _shrink_value(spec, fails):
     """smallest failing sub-spec (children first)"""
     if spec[0] in ('list', 'set'):
@@ -481,7 +518,7 @@ def _value_failure(spec):
         return 'second round: %s: %s' % (type(e).__name__, str(e)[:150])
     if tok(w, True) != tok(w2, True):
         return 'second save/load changed the value: %r -> %r' % (w, w2)
-    if tok(json.loads(text), True) != tok(json.loads(text2), True) and 'set' not in spec_features(spec):
+    if text_tree(text) != text_tree(text2):
         return 'second to_json text differs: %s -> %s' % (text[:100], text2[:100])
     return None
 
@@ -514,6 +551,16 @@ def o_longdouble(case):
     return None
 
 
+def eq_usable(obj):
+    """the classes' `==` is only an oracle where it works at all: comparing the
+    object with an identical deep copy must give True (it raises, e.g., for a
+    list that contains arrays or compares NaN unequal)"""
+    try:
+        return (obj == copy.deepcopy(obj)) is True
+    except Exception:
+        return False
+
+
 def _params_failure(ps):
     P = _impl()[0]
     p = build_params(ps)
@@ -521,27 +568,28 @@ def _params_failure(ps):
         q = P.from_json(p.to_json())
     except Exception as e:
         return 'json: %s: %s' % (type(e).__name__, str(e)[:150])
-    try:
-        eq = (p == q)
-        ne = (p != q)
-    except Exception as e:
-        return '== raised %s: %s' % (type(e).__name__, str(e)[:150])
-    if eq is not True or ne is not False:
-        return 'loaded object != original (== gave %r)' % (eq,)
+    if eq_usable(p):
+        try:
+            eq = (p == q)
+            ne = (p != q)
+        except Exception as e:
+            return '== raised %s: %s' % (type(e).__name__, str(e)[:150])
+        if eq is not True or ne is not False:
+            return 'loaded object != original (== gave %r)' % (eq,)
     d = params_same(p, q)
     if d:
         return d
     q2 = P.from_json(q.to_json())
     if params_state(q2) != params_state(q):
         return 'second save/load changed the object'
-    if 'set' not in _params_features(ps) and tok(json.loads(p.to_json()), True) != tok(json.loads(q.to_json()), True):
+    if text_tree(p.to_json()) != text_tree(q.to_json()):
         return 'to_json() of the loaded object differs from the original text'
     q3 = P._from_dict(p._to_dict())
     d = params_same(p, q3, 'from_dict')
     if d:
         return d
     q4 = pickle.loads(pickle.dumps(p, protocol=2))
-    if params_state(q4) != params_state(p) or not (q4 == p):
+    if params_state(q4) != params_state(p) or (eq_usable(p) and not (q4 == p)):
         return 'pickle round trip changed the object'
     return None
 
@@ -588,43 +636,63 @@ def _result_failure(rs):
         q = R.from_json(r.to_json())
     except Exception as e:
         return 'json: %s: %s' % (type(e).__name__, str(e)[:150])
-    try:
-        eq = (r == q)
-    except Exception as e:
-        return '== raised %s: %s' % (type(e).__name__, str(e)[:150])
-    if eq is not True or (r != q) is not False:
-        return 'loaded result != original'
+    if eq_usable(r):
+        try:
+            eq = (r == q)
+        except Exception as e:
+            return '== raised %s: %s' % (type(e).__name__, str(e)[:150])
+        if eq is not True or (r != q) is not False:
+            return 'loaded result != original'
     d = result_same(r, q)
     if d:
         return d
-    if r.num_updates > 0 and rs['type'] != 2:
+    if r.num_updates > 0 and rs['type'] != 2 and not any('npfloat' in f for f in result_features(rs)):
         a = (r.get_result_mean(), r.get_result_var())
         b = (q.get_result_mean(), q.get_result_var())
-        if tok(list(a)) != tok(list(b)):
+        if [scalar_key(x) for x in a] != [scalar_key(x) for x in b]:
             return 'statistics changed: %r -> %r' % (a, b)
     q2 = R.from_json(q.to_json())
     if result_state(q2) != result_state(q):
         return 'second save/load changed the result'
+    if text_tree(r.to_json()) != text_tree(q.to_json()):
+        return 'to_json() of the loaded result differs from the original text'
     q3 = R.from_dict(r.to_dict())
     d = result_same(r, q3, 'from_dict')
     if d:
         return d
     q4 = pickle.loads(pickle.dumps(r, protocol=2))
-    if result_state(q4) != result_state(r) or not (q4 == r):
+    if result_state(q4) != result_state(r) or (eq_usable(r) and not (q4 == r)):
         return 'pickle round trip changed the result'
     return None
 
 
 def result_class(rs):
-    f = sorted(result_features(rs))
+    """classify by the smallest failing history: a single update if one alone fails"""
+    def fails(h):
+        try:
+            return _result_failure(dict(rs, history=h)) is not None
+        except Exception:
+            return True
+    small = rs
+    if rs['history'] and not fails([]):
+        for u in rs['history']:
+            if fails([u]):
+                small = dict(rs, history=[u])
+                break
+    elif rs['history']:
+        small = dict(rs, history=[])
+    f = sorted(result_features(small))
     return 'result:%s%s' % (TYPE_NAMES[rs['type']], (':' + '+'.join(f)) if f else '')
 
 
 def o_result(case):
     try:
-        d = _result_failure(case)
+        build_result(case)
     except Exception as e:    # the history itself cannot be applied
+        if case['type'] != 3:
+            return None       # numpy arithmetic of update() on narrow integers: not a serialisation matter
         return result_class(case) + ':update-raises', '%s: %s' % (type(e).__name__, str(e)[:150])
+    d = _result_failure(case)
     if d is None:
         return None
     return result_class(case), d
@@ -645,18 +713,22 @@ def _sim_failure(ss):
         q = SR.from_json(s.to_json())
     except Exception as e:
         return 'json: %s: %s' % (type(e).__name__, str(e)[:150])
-    try:
-        eq = (s == q)
-    except Exception as e:
-        return '== raised %s: %s' % (type(e).__name__, str(e)[:150])
-    if eq is not True or (s != q) is not False:
-        return 'loaded SimulationResults != original'
+    usable = eq_usable(s)
+    if usable:
+        try:
+            eq = (s == q)
+        except Exception as e:
+            return '== raised %s: %s' % (type(e).__name__, str(e)[:150])
+        if eq is not True or (s != q) is not False:
+            return 'loaded SimulationResults != original'
     d = sim_same(s, q)
     if d:
         return d
     q2 = SR.from_json(q.to_json())
     if sim_state(q2) != sim_state(q):
         return 'second save/load changed the object'
+    if text_tree(s.to_json()) != text_tree(q.to_json()):
+        return 'to_json() of the loaded object differs from the original text'
     # files
     tpl = ss.get('template')
     if tpl is not None:
@@ -664,8 +736,9 @@ def _sim_failure(ss):
             s = build_sim(ss)
             name = os.path.join(_tmpdir(), tpl + ext)
             try:
-                actual = s.save_to_file(name)
-                q = SR.load_from_file(actual)
+                with time_limit(3.0):
+                    actual = s.save_to_file(name)
+                    q = SR.load_from_file(actual)
             except Exception as e:
                 return 'file%s: %s: %s' % (ext or '(none)', type(e).__name__, str(e)[:150])
             finally:
@@ -676,7 +749,7 @@ def _sim_failure(ss):
                 pass
             if s.original_filename != name + ('.pickle' if ext == '' else ''):
                 return 'original_filename is %r' % (s.original_filename,)
-            if not (s == q):
+            if usable and not (s == q):
                 return 'file%s: loaded object != original' % ext
             d = sim_same(s, q)
             if d:
@@ -704,27 +777,54 @@ def sim_class(ss):
     for group in ss['results']:
         for rs in group:
             try:
-                bad = _result_failure(rs) is not None
+                build_result(rs)
             except Exception:
                 return 'sim:' + result_class(rs) + ':update-raises'
+            try:
+                bad = _result_failure(rs) is not None
+            except Exception:
+                bad = True
             if bad:
                 return 'sim:' + result_class(rs)
     if ss.get('template') is not None:
         no_file = dict(ss, template=None)
         try:
             if _sim_failure(no_file) is None:
-                f = sorted(_params_features(ss['params']))
-                return 'sim:file:' + ('+'.join(f) if f else 'plain')
+                d = _sim_failure(ss) or ''
+                ext = d[4:d.index(':')] if d.startswith('file') and ':' in d else '?'
+                return 'sim:file:' + (ext or 'no-extension')
         except Exception:
             pass
     return 'sim:combination'
 
 
+def unbuildable(ss):
+    """None if the object can be built; 'skip' if only numpy arithmetic of a
+    non-CHOICE update() raised; else the exception text"""
+    try:
+        build_sim(ss)
+        return None
+    except Exception as e:
+        for group in ss['results']:
+            for rs in group:
+                try:
+                    build_result(rs)
+                except Exception:
+                    if rs['type'] != 3:
+                        return 'skip'
+        return '%s: %s' % (type(e).__name__, str(e)[:150])
+
+
 def o_sim(case):
+    u = unbuildable(case)
+    if u == 'skip':
+        return None
+    if u is not None:
+        return sim_class(case), 'building the object: ' + u
     try:
         d = _sim_failure(case)
     except Exception as e:
-        return sim_class(case), 'building the object: %s: %s' % (type(e).__name__, str(e)[:150])
+        return sim_class(case), '%s: %s' % (type(e).__name__, str(e)[:150])
     if d is None:
         return None
     return sim_class(case), d
@@ -741,7 +841,8 @@ def o_filename(case):
         s.set_parameters(P.create({n: build(v) for n, v in params}))
         return s.get_filename_with_replaced_params(case['template'])
     try:
-        a1, a2 = name_of(case['params']), name_of(case['params'])
+        with time_limit(3.0):
+            a1, a2 = name_of(case['params']), name_of(case['params'])
     except Exception as e:
         f = set()
         for _, v in case['params']:
@@ -753,11 +854,14 @@ def o_filename(case):
         return 'filename:not-deterministic:' + (vspec[0] if vspec else 'plain'), '%r vs %r' % (a1, a2)
     # the same values after a JSON round trip / a rebuilt equal set give the same name
     p = P.create({n: build(v) for n, v in case['params']})
-    q = P.from_json(p.to_json())
+    try:
+        q = P.from_json(p.to_json())
+    except Exception:
+        q = None      # reported by the round-trip oracles
     s = SR()
-    s.set_parameters(q)
+    s.set_parameters(q if q is not None else p)
     a3 = s.get_filename_with_replaced_params(case['template'])
-    if a3 != a1:
+    if a3 != a1 and params_same(p, q) is None:
         f = sorted(spec_features(vspec)) if vspec else []
         return 'filename:changes-after-reload:' + ('+'.join(f) if f else (vspec[0] if vspec else 'plain')), '%r vs %r' % (a1, a3)
     if fld and case.get('other') is not None:
@@ -816,7 +920,8 @@ ORACLES = {
 def run_oracle(ctx, call, case, key=None, nontrivial=True):
     ctx.count((call, key if key is not None else json.dumps(case, sort_keys=True)), nontrivial)
     try:
-        r = ORACLES[call](case)
+        with time_limit(20.0):
+            r = ORACLES[call](case)
     except Exception as e:
         r = ('exception:' + type(e).__name__, repr(e)[:300])
     if r is not None:
@@ -829,7 +934,8 @@ def run_oracle(ctx, call, case, key=None, nontrivial=True):
 
 def replay(ctx, rep):
     try:
-        r = ORACLES[rep['call']](rep['case'])
+        with time_limit(20.0):
+            r = ORACLES[rep['call']](rep['case'])
     except Exception:
         return True
     return r is not None
@@ -951,10 +1057,36 @@ def gen_set(rng):
         if any(plain(v) == plain(build(t)) for t in items):
             continue
         items.append(s)
+    if any(t[0].startswith('np') for t in items):
+        # hashing/comparing a numpy scalar with a Python int beyond 64 bits raises OverflowError in numpy itself
+        items = [t for t in items if not (t[0] == 'int' and abs(t[1]) >= 2 ** 63)]
     return ['set', items]
 
 
+def gen_progression(rng):
+    """1-D arrays around an arithmetic progression: exact, slightly perturbed
+    (steps only 'close'), crossing zero, decreasing unsigned"""
+    n = rng.randint(4, 9)
+    c = rng.below(4)
+    if c == 0:
+        dt = rng.choice(['uint8', 'uint16', 'uint32', 'uint64'])
+        top = int(np.iinfo(dt).max)
+        vals = [rng.choice([top, top - 1, 0, 1, 2, 75, rng.below(top + 1)]) for _ in range(n)]
+        return ['array', dt, [n], vals]
+    if c == 1:
+        dt = rng.choice(['int8', 'int16', 'int32', 'int64'])
+        start, step = rng.randint(-20, 20), rng.randint(-5, 5)
+        return ['array', dt, [n], [start + i * step for i in range(n)]]
+    start = rng.randint(-4, 1) * rng.choice([1.0, 0.5, 1000.0])
+    step = rng.choice([1.0, 0.5, 1000.0, 2.5])
+    eps = rng.choice([0.0, 1e-5, 1e-6, 9e-6, 1e-9, 1e-3])
+    vals = [start + i * step * (1.0 + (eps if i >= rng.randint(1, n - 1) else 0.0)) for i in range(n)]
+    return ['array', 'float64', [n], [fhex(x) for x in vals]]
+
+
 def gen_array(rng):
+    if rng.chance(0.12):
+        return gen_progression(rng)
     dt = rng.choice(INT_DTYPES + FLOAT_DTYPES + ['bool', 'float64', 'int64'])
     nd = rng.choice([0, 1, 1, 1, 2, 2, 3])
     shape = [rng.choice([0, 1, 2, 3, 4]) if rng.chance(0.9) else 0 for _ in range(nd)]
@@ -1141,9 +1273,39 @@ def gen_sim(rng, with_template=True):
 
 
 # ------------------------------------------------------------ correspondence
+class Hang(Exception):
+    """the implementation did not return within the time limit"""
+
+
+class time_limit:
+    """SIGALRM guard around calls into the implementation (an endless Python
+    loop there must become a reported failure, not a stuck check)"""
+
+    def __init__(self, seconds=10.0):
+        self.seconds = seconds
+
+    def _raise(self, *_):
+        raise Hang('no answer within %.0f s' % self.seconds)
+
+    def __enter__(self):
+        import signal
+        self.outer_left = signal.getitimer(signal.ITIMER_REAL)[0]   # nested use: re-armed on exit
+        self.old = signal.signal(signal.SIGALRM, self._raise)
+        signal.setitimer(signal.ITIMER_REAL, self.seconds)
+
+    def __exit__(self, *exc):
+        import signal
+        signal.setitimer(signal.ITIMER_REAL, 0)
+        signal.signal(signal.SIGALRM, self.old)
+        if self.outer_left > 0:
+            signal.setitimer(signal.ITIMER_REAL, max(self.outer_left, 0.01))
+        return False
+
+
 def safe(fn):
     try:
-        return fn()
+        with time_limit(5.0):
+            return fn()
     except NotSendable:
         raise
     except Exception as e:
@@ -1186,7 +1348,7 @@ def corr_value(ctx, b, spec):
     S = _impl()[3]
     v = build(spec)
     try:
-        line = tok(v)
+        line = tok(v, strict=True)
     except NotSendable:
         ctx.branch('not-sendable')
         return
@@ -1233,7 +1395,11 @@ def corr_result(ctx, b, rs):
     try:
         r = build_result(rs)
     except Exception as e:
-        ctx.tie_broken('correspondence', 'Result.update', 'history of supported updates raised %s: %s'
+        if rs['type'] != 3:
+            # numpy arithmetic of update() (e.g. Python int 355 + np.uint8): not a serialisation matter
+            ctx.branch('update-arithmetic-raises')
+            return
+        ctx.tie_broken('correspondence', 'Result.update', 'history of valid CHOICE updates raised %s: %s'
                        % (type(e).__name__, str(e)[:200]), rs)
         return
     try:
@@ -1278,11 +1444,14 @@ def corr_choice_errors(ctx, b, rng):
 
 def corr_sim(ctx, b, ss):
     SR = _impl()[2]
-    try:
-        s = build_sim(ss)
-    except Exception as e:
-        ctx.tie_broken('correspondence', 'SimulationResults.build', '%s: %s' % (type(e).__name__, str(e)[:200]), ss)
+    u = unbuildable(ss)
+    if u == 'skip':
+        ctx.branch('update-arithmetic-raises')
         return
+    if u is not None:
+        ctx.tie_broken('correspondence', 'SimulationResults.build', u, ss)
+        return
+    s = build_sim(ss)
     try:
         line = sim_in(s)
     except NotSendable:
@@ -1301,7 +1470,7 @@ def corr_sim(ctx, b, ss):
         return
     # file path: name, original_filename, loaded object
     tpl = os.path.join(_tmpdir(), ss['template'])
-    segs, tbl = template_segments(tpl, s._params.parameters)
+    segs, tbl = template_segments(tpl, s._params.parameters, ctx)
     if segs is None:
         ctx.branch('template:unmodelled-field')
         return
@@ -1323,7 +1492,7 @@ def corr_sim(ctx, b, ss):
         ctx.branch('file:' + (ext or 'none'))
 
 
-def template_segments(tpl, parameters):
+def template_segments(tpl, parameters, ctx=None):
     """parse 'a_{x}_b' into the model's segment list; None if a field is not a scalar"""
     import string
     segs = []
@@ -1340,6 +1509,11 @@ def template_segments(tpl, parameters):
             if isinstance(v, np.floating) and v.dtype.itemsize > 8:
                 return None, None
             w = 64 if not isinstance(v, np.generic) else v.dtype.itemsize * 8
+            if ctx is not None:
+                # hypothesis `fr w = fr 64` of theorem filename_same_after_reload, on this value
+                ctx.corr('format(numpy float) = format(float of the same value)', {'dtype': str(getattr(v, 'dtype', 'float')),
+                         'hex': float(v).hex()}, format(v, ''), format(float(v), ''), nontrivial=w != 64,
+                         key=('fmt', w, float(v).hex()))
             floats.append('L3 i%d f%s %s' % (w, tok_float(v), tok_str(format(v, ''))))
         elif ('{%s}' % n) in tpl and kind_of(v) not in ('int', 'str', 'bool', 'none'):
             return None, None
@@ -1355,7 +1529,11 @@ def corr_filename(ctx, b, rng):
         v = gen_scalar(rng)
         params.append([n, v])
     tpl = rng.choice(['res', 'out dir', 'é', ''])
-    for n, _ in params:
+    scalars = list(params)
+    if rng.chance(0.4):
+        # parameters the template does not mention (any supported value) must not matter
+        params.append(['extra', gen_array(rng) if rng.chance(0.7) else gen_value(rng, 2)])
+    for n, _ in scalars:
         c = rng.below(4)
         if c == 0:
             tpl += '_{%s}' % n
@@ -1372,7 +1550,7 @@ def corr_filename(ctx, b, rng):
     p = P.create({n: build(v) for n, v in params})
     s.set_parameters(p)
     case = {'template': tpl, 'params': params}
-    segs, tbl = template_segments(tpl, p.parameters)
+    segs, tbl = template_segments(tpl, p.parameters, ctx)
     if segs is None:
         ctx.branch('template:unmodelled-field')
         return
@@ -1432,8 +1610,8 @@ def corpus_params():
 
 def sizes(ctx):
     if ctx.tier == 'quick':
-        return dict(values=700, params=350, results=400, sims=130, fnames=250, orc=250)
-    return dict(values=30000, params=9000, results=12000, sims=2500, fnames=5000, orc=5000)
+        return dict(values=5000, params=2000, results=2500, sims=600, fnames=1200, orc=1200)
+    return dict(values=150000, params=60000, results=75000, sims=14000, fnames=30000, orc=28000)
 
 
 def correspondence(ctx):
@@ -1471,12 +1649,78 @@ def correspondence(ctx):
     for _ in range(n['fnames']):
         corr_filename(ctx, b, rng)
     b.flush()
+    if ctx.tier == 'thorough':
+        small_scope(ctx, b)
+
+
+def small_scope(ctx, b):
+    """thorough tier: complete enumeration of small sub-spaces"""
+    import itertools
+    # every CHOICE history of length <= 4 over <= 3 choices (negative indexes included), both modes
+    for n in (1, 2, 3):
+        idx = list(range(-n, n))
+        for ln in range(0, 5 if n < 3 else 4):
+            for hist in itertools.product(idx, repeat=ln):
+                for acc in (False, True):
+                    rs = {'name': 'c', 'type': 3, 'acc': acc, 'choice_num': n,
+                          'history': [[['int', i], None] for i in hist]}
+                    corr_result(ctx, b, rs)
+                    ctx.branch('small-scope:choice')
+        b.flush()
+    # every real dtype x a fixed family of shapes (0-d, empty, zero-sized in each position, up to 3-d)
+    shapes = [[], [0], [1], [3], [0, 2], [2, 0], [1, 1], [2, 3], [0, 0], [0, 2, 2], [2, 0, 2], [2, 2, 0], [2, 1, 2]]
+    for dt in INT_DTYPES + FLOAT_DTYPES + ['bool']:
+        for shape in shapes:
+            size = 1
+            for d in shape:
+                size *= d
+            if dt == 'bool':
+                flat = [bool(i % 2) for i in range(size)]
+            elif dt in FLOAT_DTYPES:
+                flat = [fhex((i - 2) / 4.0) for i in range(size)]
+            else:
+                flat = [i + 1 for i in range(size)]
+            spec = ['array', dt, shape, flat]
+            corr_value(ctx, b, spec)
+            corr_params(ctx, b, {'params': [['H', spec]], 'unpack': [], 'child': None})
+            run_oracle(ctx, 'json.roundtrip', {'v': spec})
+            run_oracle(ctx, 'SimulationResults.filename',
+                       {'template': 'res_{snr}.json', 'params': [['snr', ['int', 5]], ['H', spec]], 'field': 'snr',
+                        'other': ['int', 6]})
+            ctx.branch('small-scope:array')
+    b.flush()
+    # every numpy scalar type at its extreme values, alone / in a list / in a set / as an unpacked child value
+    for dt in INT_DTYPES:
+        info = np.iinfo(dt)
+        for v in (int(info.min), int(info.max), 0):
+            for wrap in (lambda s: s, lambda s: ['list', [s]], lambda s: ['set', [s]]):
+                spec = wrap(['npint', dt, v])
+                corr_value(ctx, b, spec)
+                run_oracle(ctx, 'json.roundtrip', {'v': spec})
+    for dt in FLOAT_DTYPES:
+        info = np.finfo(dt)
+        for v in (float(info.max), float(info.tiny), float(info.eps), -float(info.max), 0.0, -0.0, float('inf'),
+                  float(info.smallest_subnormal)):
+            for wrap in (lambda s: s, lambda s: ['list', [s]], lambda s: ['set', [s]]):
+                spec = wrap(['npfloat', dt, fhex(v)])
+                corr_value(ctx, b, spec)
+                run_oracle(ctx, 'json.roundtrip', {'v': spec})
+    b.flush()
 
 
 def oracle_pass(ctx, scale=1.0):
     n = sizes(ctx)
     k = int(n['orc'] * scale)
     rng = ctx.rng.fork('oracles')
+    # minimised past failures (the defects repaired by the C17 fix: commits) run first
+    cdir = os.path.join(core.VERIF, 'corpus', 'c17')
+    if os.path.isdir(cdir):
+        for fn in sorted(os.listdir(cdir)):
+            if fn.endswith('.json'):
+                with open(os.path.join(cdir, fn)) as f:
+                    rec = json.load(f)
+                run_oracle(ctx, rec['call'], rec['case'], key=('corpus', fn))
+                ctx.branch('corpus')
     for spec in CORPUS_VALUES:
         run_oracle(ctx, 'json.roundtrip', {'v': spec})
     for _ in range(k * 2):
@@ -1516,6 +1760,11 @@ def oracle_pass(ctx, scale=1.0):
                 break
             other = gen_scalar(rng)
         tpl = 'res' + ''.join('_{%s}' % nme for nme, _ in params if nme == fld or rng.chance(0.5)) + rng.choice(['.json', '.pickle', ''])
+        if rng.chance(0.5):
+            arr = gen_array(rng)
+            params.append(['arr', arr])
+            if rng.chance(0.3) and len(arr[2]) == 1:
+                tpl = tpl.replace('res', 'res_{arr}', 1)    # rendered through the range representation
         run_oracle(ctx, 'SimulationResults.filename', {'template': tpl, 'params': params, 'field': fld, 'other': other})
     for arr in (['array', 'float64', [2, 2], [fhex(1.0)] * 4], ['array', 'float64', [0], []], ['array', 'int64', [], [5]],
                 ['array', 'int64', [5], [1, 2, 3, 4, 5]]):
